@@ -36,10 +36,18 @@ type Cfg struct {
 	// Bare: no On* callback is installed at all (with Reject == "", the zero-copy upgrader normally gets accepting
 	// ones): together with ProtoSel/ExtSel "nil" this is the plain ws.Upgrader{} / ws.Upgrade configuration
 	Bare bool
+	// HTTPTimeout: ws.HTTPUpgrader.Timeout is set (a write deadline around the response); PkgLevel: a zero
+	// configuration goes through the package-level ws.Upgrade / ws.UpgradeHTTP (the Default* upgraders)
+	HTTPTimeout bool
+	PkgLevel    bool
+}
+
+func (c Cfg) zero() bool {
+	return c.Bare && c.ProtoSel == "nil" && c.ExtSel == "nil" && c.Header == "nil" && c.Reject == "" && c.RBuf == 0 && c.WBuf == 0 && !c.HTTPTimeout
 }
 
 func (c Cfg) String() string {
-	return fmt.Sprintf("proto=%s ext=%s hdr=%s reject=%s/%s rbuf=%d wbuf=%d bare=%v", c.ProtoSel, c.ExtSel, c.Header, c.Reject, c.RejKind, c.RBuf, c.WBuf, c.Bare)
+	return fmt.Sprintf("proto=%s ext=%s hdr=%s reject=%s/%s rbuf=%d wbuf=%d bare=%v httptimeout=%v pkglevel=%v", c.ProtoSel, c.ExtSel, c.Header, c.Reject, c.RejKind, c.RBuf, c.WBuf, c.Bare, c.HTTPTimeout, c.PkgLevel && c.zero())
 }
 
 var (
@@ -203,6 +211,7 @@ type outcome struct {
 	consumed int
 	reached  bool // the upgrader was invoked (net/http path may refuse earlier)
 	hdrCalls int
+	panicked string // the upgrader panicked (value + innermost library frame)
 }
 
 func negotiateFor(kind string, wsf *wsflate.Extension) func(httphead.Option) (httphead.Option, error) {
@@ -279,7 +288,11 @@ func runUpgrader(cfg Cfg, req *gen.Req, plan xport.Plan) outcome {
 	}
 	ch := xport.NewChunker(req.Bytes(), plan)
 	rec := xport.NewRec()
-	out.hs, out.err = u.Upgrade(xport.RW{Reader: ch, Writer: rec})
+	if cfg.PkgLevel && cfg.zero() {
+		out.hs, out.err = ws.Upgrade(xport.RW{Reader: ch, Writer: rec})
+	} else {
+		out.hs, out.err = u.Upgrade(xport.RW{Reader: ch, Writer: rec})
+	}
 	out.written = rec.Bytes()
 	out.consumed = ch.Pos
 	return out
@@ -326,6 +339,12 @@ func startHTTP() {
 			Handler: http.HandlerFunc(func(w http.ResponseWriter, r *http.Request) {
 				run := r.Context().Value(runKey{}).(*httpRun)
 				cfg := run.cfg
+				defer func() {
+					// (net/http would swallow the panic and leave the hijacked connection open)
+					if p := recover(); p != nil {
+						run.res <- outcome{reached: true, err: fmt.Errorf("panic: %v", p), panicked: fmt.Sprint(p)}
+					}
+				}()
 				u := ws.HTTPUpgrader{}
 				if cfg.ProtoSel != "nil" && cfg.ProtoSel != "custom" {
 					u.Protocol = protoSelector(cfg.ProtoSel)
@@ -347,7 +366,19 @@ func startHTTP() {
 						u.Header.Set("X-After", "pad")
 					}
 				}
-				conn, _, hs, err := u.Upgrade(r, w)
+				if cfg.HTTPTimeout {
+					u.Timeout = time.Minute
+				}
+				var (
+					conn net.Conn
+					hs   ws.Handshake
+					err  error
+				)
+				if cfg.PkgLevel && cfg.zero() {
+					conn, _, hs, err = ws.UpgradeHTTP(r, w)
+				} else {
+					conn, _, hs, err = u.Upgrade(r, w)
+				}
 				if conn != nil {
 					conn.Close()
 				}
@@ -386,6 +417,9 @@ func runHTTPUpgrader(cfg Cfg, req *gen.Req) outcome {
 		default:
 		}
 	case <-time.After(30 * time.Second):
+	}
+	if out.panicked != "" {
+		srvc.Close()
 	}
 	select {
 	case <-done:
@@ -447,6 +481,10 @@ func optNames(opts []httphead.Option) []string {
 
 // decide checks one outcome against the oracle. upgrader is "Upgrader" or "HTTPUpgrader".
 func decide(c *mon.C, upgrader string, cfg Cfg, req *gen.Req, protoHdrs, extHdrs []string, out outcome, plan string) bool {
+	if out.panicked != "" {
+		c.Fail(upgrader+"/panic", "the upgrader panicked on a request: "+out.panicked, map[string]interface{}{"request": string(req.Bytes()), "config": cfg.String(), "written": string(out.written)})
+		return false
+	}
 	v := req.Verdict // copy
 	v.Statuses = map[int]bool{}
 	for k := range req.Verdict.Statuses {
@@ -660,7 +698,7 @@ func decide(c *mon.C, upgrader string, cfg Cfg, req *gen.Req, protoHdrs, extHdrs
 			}
 		}
 	}
-	c.Classf("%s|%s|%s|proto=%s|ext=%s|rej=%s|succ=%v", upgrader, v.ClassName(), variantKey(req), cfg.ProtoSel, cfg.ExtSel, cfg.Reject, success)
+	c.Classf("%s|%s|%s|proto=%s|ext=%s|rej=%s|succ=%v|to=%v|pkg=%v", upgrader, v.ClassName(), variantKey(req), cfg.ProtoSel, cfg.ExtSel, cfg.Reject, success, cfg.HTTPTimeout && upgrader == "HTTPUpgrader", cfg.PkgLevel && cfg.zero())
 	return true
 }
 
@@ -709,6 +747,8 @@ func randCfg(c *mon.C, simple bool) Cfg {
 		cfg.RBuf = bufSizes[c.Rng.Intn(len(bufSizes))]
 		cfg.WBuf = bufSizes[c.Rng.Intn(len(bufSizes))]
 	}
+	cfg.HTTPTimeout = c.Rng.Intn(2) == 0
+	cfg.PkgLevel = c.Rng.Intn(2) == 0
 	return cfg
 }
 
@@ -756,6 +796,7 @@ func subSingle() mon.Sub {
 			x := list[c.I%len(list)]
 			rep := c.I / len(list)
 			cfg := randCfg(c, rep == 0)
+			cfg.HTTPTimeout = rep%2 == 1 // (every variant meets the upgrader with and without a write timeout)
 			if !runBoth(c, cfg, map[string]string{x.f: x.v}, protoOffers[rep%len(protoOffers)], extOffers[rep%len(extOffers)], true) {
 				return
 			}
@@ -835,6 +876,88 @@ func subRandom() mon.Sub {
 	}
 }
 
+// ---- a ResponseWriter that cannot be hijacked: the upgrade cannot happen, the client gets an HTTP error
+
+type plainRW struct {
+	h      http.Header
+	status int
+	body   bytes.Buffer
+}
+
+func (w *plainRW) Header() http.Header { return w.h }
+func (w *plainRW) WriteHeader(s int) {
+	if w.status == 0 {
+		w.status = s
+	}
+}
+func (w *plainRW) Write(p []byte) (int, error) {
+	if w.status == 0 {
+		w.status = 200
+	}
+	return w.body.Write(p)
+}
+
+type failingHijackRW struct{ plainRW }
+
+func (w *failingHijackRW) Hijack() (net.Conn, *bufio.ReadWriter, error) {
+	return nil, nil, errors.New("hijack refused: connection already taken over")
+}
+
+func subNoHijack() mon.Sub {
+	return mon.Sub{
+		Name: "http-nohijack", Required: true,
+		N: func(string) int { return 24 },
+		Do: func(c *mon.C) {
+			req := gen.BuildReq(c.Rng, nil, protoOffers[c.I%len(protoOffers)], extOffers[c.I%len(extOffers)])
+			hr, err := http.ReadRequest(bufio.NewReader(bytes.NewReader(req.Bytes())))
+			if err != nil {
+				c.Inconclusive("canonical request not parsed by net/http: " + err.Error())
+				return
+			}
+			var w http.ResponseWriter
+			var rec *plainRW
+			kind := []string{"no-hijacker", "hijack-fails"}[c.I%2]
+			if kind == "no-hijacker" {
+				rec = &plainRW{h: http.Header{}}
+				w = rec
+			} else {
+				f := &failingHijackRW{plainRW{h: http.Header{}}}
+				rec, w = &f.plainRW, f
+			}
+			u := ws.HTTPUpgrader{}
+			if c.I%4 >= 2 {
+				u.Timeout = time.Minute
+				u.Header = http.Header{"X-Extra": []string{"one"}}
+			}
+			c.Count(1)
+			var (
+				conn net.Conn
+				uerr error
+			)
+			if c.I%3 == 0 && c.I%4 < 2 {
+				conn, _, _, uerr = ws.UpgradeHTTP(hr, w)
+			} else {
+				conn, _, _, uerr = u.Upgrade(hr, w)
+			}
+			det := map[string]interface{}{"writer": kind, "request": string(req.Bytes()), "err": fmt.Sprint(uerr), "status": rec.status, "header": fmt.Sprint(rec.h), "body": rec.body.String()}
+			switch {
+			case uerr == nil:
+				c.Fail("nohijack/success/"+kind, "HTTPUpgrader.Upgrade reported success although the connection could not be taken over", det)
+			case conn != nil:
+				c.Fail("nohijack/conn/"+kind, "a connection was returned together with the error", det)
+			case rec.status == 101 || rec.status < 400:
+				c.Fail("nohijack/status/"+kind, fmt.Sprintf("status %d written instead of an HTTP error", rec.status), det)
+			case strings.TrimRight(rec.body.String(), "\r\n") != uerr.Error():
+				c.Fail("nohijack/body/"+kind, "the body of the error response is not the error text", det)
+			case rec.h.Get("Content-Length") != "" && rec.h.Get("Content-Length") != fmt.Sprint(rec.body.Len()):
+				c.Fail("nohijack/content-length/"+kind, "Content-Length does not match the body", det)
+			default:
+				c.Classf("nohijack|%s|status=%d|timeout=%v", kind, rec.status, u.Timeout != 0)
+			}
+		},
+	}
+}
+
 func main() {
 	mon.Main(&mon.Spec{
 		Property: "C09",
@@ -842,6 +965,6 @@ func main() {
 		Rule: "requests are generated from a grammar together with their derivation (9 factors: method, version token, Host, Upgrade, Connection, Sec-WebSocket-Version, Sec-WebSocket-Key, extra headers, line ends; 2-17 variants each incl. absent / case- and blank-varied / wrong / empty / duplicated); the three-valued oracle (MUST_ACCEPT / MUST_REJECT with allowed statuses / OPEN) is evaluated on the derivation, not by re-parsing. " +
 			"Cases: every single factor variant x 4 configurations, every pair of non-canonical variants of different factors, the canonical request x every subprotocol selector x extension selector/negotiator x offer lists, and seeded random derivations x random configurations (selectors, callbacks rejecting with plain/custom errors, header writers, I/O buffer sizes, chunked transport). ws.Upgrader runs over an in-memory chunked transport; ws.HTTPUpgrader behind a real net/http.Server on an in-memory listener. Responses are parsed by net/http. distinct = (upgrader, verdict class, non-canonical variants, selector kinds, outcome).",
 		Assumptions: []string{"net/http.ReadResponse is the independent response parser; crypto/sha1 + encoding/base64 compute the expected accept value", "OPEN classes: duplicated mandatory headers with different validity, Upgrade token lists, empty Host, version tokens HTTP/1.01, http/1.1 and a minor version overflowing 64 bits, header with empty name", "requests that net/http refuses itself never reach HTTPUpgrader and are counted as not-reached"},
-		Subs:        []mon.Sub{subSingle(), subPairs(), subConfigs(), subRandom()},
+		Subs:        []mon.Sub{subSingle(), subPairs(), subConfigs(), subRandom(), subNoHijack()},
 	})
 }
